@@ -12,18 +12,18 @@ git checkout -q --detach $(git -C /repo rev-parse HEAD); git checkout -q -- .; r
 cp $S/demo.rs tests/seed_demo.rs
 FEAT=""
 grep -q "verif" $S/demo.rs && FEAT="--features verif"
-run_demo() { timeout 2400 unshare -n bash -c "ip link set lo up; cargo test --offline $FEAT --test seed_demo" 2>&1 | tail -60; }
+run_demo() { timeout -s KILL 2400 unshare -n bash -c "ip link set lo up; cargo test --offline $FEAT --test seed_demo" 2>&1 | tail -60; }
 echo "### demo WITHOUT patch"; OUT0=$(run_demo); echo "$OUT0" | grep -E "^test result|error(\[|:)" | head -5
 git apply $S/patch.diff || { echo "CONFIRM: patch does not apply"; exit 3; }
 echo "### build with patch (feature verif)"; timeout 2400 cargo build --offline --features verif 2>&1 | grep -E "^error|warning: unused" | head -5
 echo "### demo WITH patch"; OUT1=$(run_demo); echo "$OUT1" | grep -E "^test result|error(\[|:)" | head -5
 echo "### repository tests WITH patch"
 rm -f tests/seed_demo.rs
-T=$(timeout 1200 unshare -n bash -c "ip link set lo up; cargo test --workspace --no-fail-fast --offline" 2>&1 | grep -E "^test result|^test .* FAILED")
+T=$(timeout -s KILL 1200 unshare -n bash -c "ip link set lo up; cargo test --workspace --no-fail-fast --offline" 2>&1 | grep -E "^test result|^test .* FAILED")
 echo "$T"
 if echo "$T" | grep -q "FAILED"; then
   echo "### retry failing targets once (fixed ports may collide with other runs)"
-  T2=$(timeout 1200 unshare -n bash -c "ip link set lo up; cargo test --workspace --no-fail-fast --offline" 2>&1 | grep -E "^test result|^test .* FAILED"); echo "$T2"; T="$T2"
+  T2=$(timeout -s KILL 1200 unshare -n bash -c "ip link set lo up; cargo test --workspace --no-fail-fast --offline" 2>&1 | grep -E "^test result|^test .* FAILED"); echo "$T2"; T="$T2"
 fi
 git apply -R $S/patch.diff
 P0=$(echo "$OUT0" | grep -c "^test result: ok")
